@@ -1,4 +1,5 @@
 -- Root of the `Secp` library: everything `setup.sh` builds once.
 import Secp.Driver
+import Secp.Props.C08
 import Secp.Props.C09
 import Secp.Props.C19
